@@ -201,7 +201,7 @@ def main():
             v = vs[0]
             import hashlib
 
-            hh = hashlib.sha1(json.dumps([v["driver"], v["case"], v["seed"], v["tier"], key]).encode()).hexdigest()[:10]
+            hh = hashlib.sha1(json.dumps([mon, v["driver"], v["case"], v["seed"], v["tier"], key]).encode()).hexdigest()[:10]
             safe = "".join(c if c.isalnum() or c in "._-" else "_" for c in key)[:60]
             path = os.path.join(rdir, f"{args.pid}-{safe}-{hh}.json")
             v = dict(v)
